@@ -20,7 +20,7 @@ esac
 if [ "$needs_sched" = 1 ]; then
   ( cd "$VERIF_ROOT/instr" && go build -o "$WORK/instr" . ) || { echo "engine error: instrumenter does not build" >&2; exit 2; }
   "$WORK/instr" -repo /repo -out "$WORK/instr-out" -vsched "$VERIF_ROOT/instr/vsched" >&2 || { echo "engine error: instrumentation of /repo failed" >&2; exit 2; }
-  cp "$WORK/instr-out/stats.json" "$VERIF_ROOT/evidence/C16-instrumentation.json" 2>/dev/null
+  export VERIF_INSTR_STATS="$WORK/instr-out/stats.json"
   ( cd "$VERIF_ROOT/h" && go build -tags verifsched -overlay "$WORK/instr-out/overlay.json" -o "$WORK/vcheck" ./cmd/vcheck ) || { echo "engine error: instrumented harness does not build against /repo" >&2; exit 2; }
   ( cd "$VERIF_ROOT/h" && go build -race -tags verifsched -overlay "$WORK/instr-out/overlay.json" -o "$WORK/vcheck-race" ./cmd/vcheck ) || { echo "engine error: race build failed" >&2; exit 2; }
   export VERIF_RACE_BIN="$WORK/vcheck-race"
